@@ -63,8 +63,10 @@ def RecordsOk (p : P) : Prop :=
   (∀ r ∈ p.records, ∀ b ∈ r.matched, r.start ≤ b ∧ b < r.start + r.count) ∧
   (∀ r ∈ p.records, r.start ≤ p.minF + 1)
 
-/-- **the invariant**: for every registered script `(s, n)`
-* `lo`: its recorded number is at least the number it was registered with;
+/-- **the invariant**: for every registered script `(s, n)` and every block `b` above the number
+`lo s` the script was registered with (activity at or below the registration number is not asked
+for: a fork rollback may even move `n` below `lo s`, the blocks in between are then followed
+again without being owed)
 * `safe`: every block in `(lo s, n]` that touches it is indexed — `get_scripts` does not
   overclaim;
 * `cover`: every block in `(n, minF]` that touches it is indexed or waits in a matched-blocks
@@ -73,13 +75,12 @@ def RecordsOk (p : P) : Prop :=
   below that block. -/
 structure Inv (touches : Nat → Nat → Bool) (g : G) : Prop where
   keys : (g.p.scripts.map (·.1)).Nodup
-  lo : ∀ e ∈ g.p.scripts, g.lo e.1 ≤ e.2
   safe : ∀ e ∈ g.p.scripts, ∀ b, touches e.1 b = true → g.lo e.1 < b → b ≤ e.2 →
     (e.1, b) ∈ g.p.indexed
-  cover : ∀ e ∈ g.p.scripts, ∀ b, touches e.1 b = true → e.2 < b → b ≤ g.p.minF →
+  cover : ∀ e ∈ g.p.scripts, ∀ b, touches e.1 b = true → g.lo e.1 < b → e.2 < b → b ≤ g.p.minF →
     (e.1, b) ∈ g.p.indexed ∨ pending g.p b
   complete : ∀ r ∈ g.p.records, ∀ e ∈ g.p.scripts, ∀ b, r.start ≤ b → b < r.start + r.count →
-    touches e.1 b = true → e.2 < b → b ∈ r.matched
+    touches e.1 b = true → g.lo e.1 < b → e.2 < b → b ∈ r.matched
   records : RecordsOk g.p
 
 /-- what the environment guarantees about an operation (nothing for `set` and `blocks`):
